@@ -591,6 +591,9 @@ impl<'w> Sim<'w> {
     /// Advance the clock to `target`, running maintenance at every due instant on the way.
     pub fn advance_to(&mut self, target: SystemTime) -> CheckResult {
         let mut same_instant = 0;
+        // a spinning worker (see below) ticks continuously; it is sampled at most ~1000 times per
+        // Advance and at least once per second for short ones, always including `target` itself
+        let spin_step = target.duration_since(self.now).map(|d| d / 1000).unwrap_or_default().max(Duration::from_secs(1));
         while !self.ended {
             let wait = self.drv.next_maintain(self.now);
             let due = self.now + wait;
@@ -599,18 +602,30 @@ impl<'w> Sim<'w> {
             }
             if wait.is_zero() {
                 same_instant += 1;
-                if same_instant > 2 {
+                if same_instant > if self.hot_loop { 0 } else { 2 } {
                     // next_maintain stays due at the same instant (min_refetch_delay = 0 while a
                     // path is inside the expiry threshold): the real task would spin as fast as
-                    // fetches complete; modelled as one more tick per second
+                    // fetches complete; modelled as further ticks `spin_step` apart, the last one
+                    // at `target`, so that no observation is made while a tick is due
                     self.hot_loop = true;
-                    let t = (self.now + Duration::from_secs(1)).min(target);
-                    if t == self.now || self.maintains >= TICK_BUDGET {
+                    let t = (self.now + spin_step).min(target);
+                    if t > self.now {
+                        if self.maintains >= TICK_BUDGET {
+                            // fixed work bound per history: the history ends here (time must
+                            // not move on without the ticks that are due)
+                            self.ended = true;
+                            self.budget_exhausted = true;
+                            break;
+                        }
+                        same_instant = 0;
+                        self.maintain_at(t)?;
+                        continue;
+                    }
+                    if same_instant > 1 {
+                        // already ticked at `target`
                         break;
                     }
-                    same_instant = 0;
-                    self.maintain_at(t)?;
-                    continue;
+                    // at `target` with a tick due and none run yet at this instant: run it below
                 }
             } else {
                 same_instant = 0;
